@@ -7,6 +7,14 @@ for l in open('/verif/properties.jsonl'):
     p = json.loads(l)
     if p['id'] == pid:
         break
+import glob
+tried = []
+for f in sorted(glob.glob('/verif/seeded/*/meta.json')):
+    m = json.load(open(f))
+    notes = (m.get('needs_to_manifest') or '').strip().split('\n')
+    first = next((l.strip('# ').strip() for l in notes if l.strip()), '')
+    tried.append('%s: %s' % (m['property'], first[:160]))
+TRIED = '\n'.join('  - ' + t for t in tried) if len(sys.argv) > 4 and sys.argv[4] == 'avoid' else ''
 print(f"""You are helping to evaluate a verification effort for the open-source project borglab/wrap (GTSAM's `wrap` tool: a pyparsing-based parser for a C++ interface-file dialect, a template instantiator, and generators for pybind11 and MATLAB MEX wrappers).
 
 You have your own scratch git worktree of the project at {wt} (a checkout of the current HEAD). Work ONLY inside {wt} (and, for scratch files, inside {wt}/_agent/). Do not read or write /repo, /verif or any other directory of the machine except the Python/g++ toolchain. There is no network.
@@ -30,4 +38,5 @@ For EACH change i = 1..{n} deliver, under {wt}/_agent/mut<i>/ :
   - demo.py : a small self-contained program (run as  PYTHONPATH={wt} /venv/bin/python demo.py ) that exits 0 and prints PASS on the UNCHANGED tree, and exits 1 and prints FAIL (with a short explanation) when patch.diff is applied. It must use only the project's public Python entry points (gtwrap.interface_parser, gtwrap.template_instantiator, gtwrap.pybind_wrapper.PybindWrapper, gtwrap.matlab_wrapper.MatlabWrapper, the scripts) and, if needed, g++ / the Python at /venv/bin/python;
   - notes.md : 5-10 lines: what the change is, which input/condition it needs in order to manifest, why the existing tests still pass.
 
+{('IMPORTANT - earlier rounds already produced the following changes (for this and for related properties). Do NOT repeat any of them or a close variant (same code site with the same idea); find genuinely different code sites, mechanisms and triggering conditions:' + chr(10) + TRIED + chr(10)) if TRIED else ''}
 Verify all of it yourself before finishing: for each change, on the clean tree run the test-suite (94 passed) and demo.py (PASS); apply the patch, run the test-suite (must still be 94 passed) and demo.py (must print FAIL, exit 1); restore the clean tree. A change that makes any existing test fail is useless — discard it and find another. Finish with a short summary listing the {n} changes and the verification results. Note: the file gtwrap/matlab_wrapper/matlab_wrapper.tpl is git-ignored and already present in your worktree; leave it there.""")
